@@ -430,8 +430,20 @@ def c12_scenarios(tier, seed):
                     body = [draw(g(kind), "x", "x"), iff("x", direction, k, [op("fatalf", site=1)])]
                     # far-out thresholds are found through the overflow-to-extreme path (a few per cent of the draws)
                     fl = {"checks": 3000, "seed": sd, "nofailfile": "true"}
+                    st = rng.choice(["", "", "5s", "8s"])      # these minimizations take milliseconds: any of these budgets is "enough time"
+                    if st:
+                        fl["shrinktime"] = st
                     out.append(scenario("c12-%s-%s-%d-%d" % (kind, direction, k, sd), {"body": body}, fl,
                                         tag={"mayfail": True, "goal": "int", "dir": direction, "k": enc(k), "zero": enc(0), "kind": kind, "threshold": str(k)}))
+    # a slow search phase (the first 40 invocations take 60 ms each) must not eat the minimization budget
+    for kind, k in (("Uint64", (1 << 63) + 12345), ("Int64", -(1 << 62) - 7)):
+        signed, bits = INT_KINDS[kind]
+        enc = WIpy if signed else Wpy
+        direction = "le" if k < 0 else "ge"
+        for sd in seeds(rng, 2 if tier == "quick" else 10):
+            body = [op("sleepfirst", n=40, ms=60), draw(g(kind), "x", "x"), iff("x", direction, k, [op("fatalf", site=1)])]
+            out.append(scenario("c12-slowsearch-%s-%d-%d" % (kind, k, sd), {"body": body}, {"checks": 3000, "seed": sd, "nofailfile": "true", "shrinktime": "4s"},
+                                tag={"mayfail": True, "goal": "int", "dir": direction, "k": enc(k), "zero": enc(0), "kind": kind, "threshold": str(k)}))
     ks = [0, 1, 2, 3, 5, 8] if tier == "quick" else list(range(0, 33))
     colls = {
         "slice_int64": (g("SliceOf", elem=g("Int64")), True), "slice_uint8": (g("SliceOf", elem=g("Uint8")), True), "slice_int": (g("SliceOf", elem=g("Int")), True),
